@@ -962,3 +962,401 @@ var _ = late(func() {
 	properties["C15"].Rules = append(properties["C15"].Rules,
 		&Rule{ID: "C15.gen-only-incremented", Floor: 8, Clause: "every store to the modification counter of Deque / internal/heap.Heap is gen + 1, and a whole-value replacement through the receiver carries the old counter over", Run: ruleGenOnlyIncremented})
 })
+
+// done-after-f (C17-r7m3): the goroutine spawn starts releases its WaitGroup slot only AFTER f has returned (or through a
+// deferred call). Done before f makes StopAndWait return while f is still running.
+func ruleDoneAfterF(c *Ctx, r *R) {
+	sp := c.fn("xsync.Group.spawn")
+	if sp == nil {
+		r.undecided("xsync.Group.spawn|missing", token.NoPos, "anchor not found")
+		return
+	}
+	var clo *ssa.Function
+	instrs(sp, func(_ *ssa.BasicBlock, _ int, in ssa.Instruction) {
+		if g, ok := in.(*ssa.Go); ok {
+			if f := staticCallee(&g.Call); f != nil && f.Blocks != nil {
+				clo = f
+			}
+		}
+	})
+	if clo == nil {
+		r.undecided("xsync.Group.spawn|goroutine", sp.Pos(), "the goroutine's body was not found")
+		return
+	}
+	// state 1 = the function handed to spawn has been called
+	isF := func(call *ssa.Call) bool {
+		if call.Call.IsInvoke() {
+			return false
+		}
+		switch call.Call.Value.(type) {
+		case *ssa.Function, *ssa.Builtin, *ssa.MakeClosure:
+			return false
+		}
+		for _, lf := range valueLeaves(call.Call.Value, nil, 0) {
+			if p, ok := lf.v.(*ssa.Parameter); ok && rootFn(p.Parent()) == sp {
+				return true
+			}
+		}
+		return false
+	}
+	pkg := rootFn(sp).Pkg
+	pf := &PF{N: 2, DeepVisit: true, InScope: func(f *ssa.Function) bool { return rootFn(f).Pkg == pkg && f.Blocks != nil && f != clo }}
+	pf.Instr = func(f *ssa.Function, in ssa.Instruction, q int) (StateSet, bool) {
+		if call, ok := in.(*ssa.Call); ok && isF(call) {
+			return ss(1), true
+		}
+		return 0, false
+	}
+	n, nf := 0, 0
+	pf.Visit = func(f *ssa.Function, in ssa.Instruction, before StateSet) {
+		var cc *ssa.CallCommon
+		switch x := in.(type) {
+		case *ssa.Call:
+			cc = &x.Call
+			if isF(x) {
+				nf++
+			}
+		case deferredCall:
+			cc = &x.Defer.Call
+		}
+		if cc == nil {
+			return
+		}
+		if cal := cc.StaticCallee(); cal != nil && cal.Name() == "Done" && cal.Pkg != nil && cal.Pkg.Pkg.Path() == "sync" {
+			n++
+			r.ok(before == ss(1), "xsync.Group.spawn|done-after-f#"+itoa(n), in.Pos(), "wg.Done() can run before the spawned function has been called and has returned: StopAndWait's wg.Wait() is released while the function is still running")
+		}
+	}
+	pf.Exits(clo, ss(0))
+	if n == 0 || nf == 0 {
+		r.undecided("xsync.Group.spawn|done", clo.Pos(), "wg.Done() / the call of the spawned function not found in the goroutine")
+	}
+}
+
+// set-always-publishes (C18-r7m2): every call of Watchable.Set installs a new inner value (and closes the previous channel):
+// "closed iff a later Set happened" holds only if no Set is skipped. A shortcut for "the value has not changed" leaves an
+// observer that started before the first Set of the zero value waiting for ever.
+func ruleSetAlwaysPublishes(c *Ctx, r *R) {
+	fn := c.fn("xsync.Watchable.Set")
+	if fn == nil {
+		r.undecided("xsync.Watchable.Set|missing", token.NoPos, "anchor not found")
+		return
+	}
+	pkg := rootFn(fn).Pkg
+	pf := &PF{N: 2, InScope: func(f *ssa.Function) bool { return rootFn(f).Pkg == pkg && f.Blocks != nil && f != fn }}
+	pf.Instr = func(f *ssa.Function, in ssa.Instruction, q int) (StateSet, bool) {
+		call, ok := in.(*ssa.Call)
+		if !ok {
+			return 0, false
+		}
+		cal := call.Call.StaticCallee()
+		if cal == nil || calleePkgPath(cal) != "sync/atomic" {
+			return 0, false
+		}
+		switch baseName(cal) {
+		case "Swap", "Store", "SwapPointer", "StorePointer":
+			return ss(1), true
+		}
+		return 0, false
+	}
+	pf.Edge = func(f *ssa.Function, g guard, q int) (StateSet, bool) {
+		// a successful CompareAndSwap publishes too
+		if bv, val := g.boolVal(); val {
+			if call, ok := bv.(*ssa.Call); ok {
+				if cal := call.Call.StaticCallee(); cal != nil && calleePkgPath(cal) == "sync/atomic" && strings.HasPrefix(baseName(cal), "CompareAndSwap") {
+					return ss(1), true
+				}
+			}
+		}
+		return 0, false
+	}
+	n := 0
+	for _, e := range pf.Exits(fn, ss(0)) {
+		n++
+		r.ok(e.States == ss(1), "xsync.Watchable.Set|publishes#"+itoa(n), retPos(e.Ret), "a path through Set returns without having installed a new value: that Set wakes nobody, so a channel handed out by Value() is not closed although a later Set happened")
+	}
+	if n == 0 {
+		r.undecided("xsync.Watchable.Set|returns", fn.Pos(), "no return found")
+	}
+}
+
+// backward-scan-reaches-zero (C19-r7m1): LastIndex / LastIndexFunc scan from len(s)-1 down to AND INCLUDING 0.
+func ruleBackwardScanReachesZero(c *Ctx, r *R) {
+	for _, name := range []string{"xslices.LastIndex", "xslices.LastIndexFunc"} {
+		fn := c.fn(name)
+		if fn == nil {
+			r.undecided(name+"|missing", token.NoPos, "anchor not found")
+			continue
+		}
+		n := 0
+		instrs(fn, func(b *ssa.BasicBlock, _ int, in ssa.Instruction) {
+			iff, ok := in.(*ssa.If)
+			if !ok {
+				return
+			}
+			bin, ok := iff.Cond.(*ssa.BinOp)
+			if !ok {
+				return
+			}
+			// the count-down index: a merge of len(s)-1 and itself minus one
+			phi, ok := bin.X.(*ssa.Phi)
+			x, y, op := bin.X, bin.Y, bin.Op
+			if !ok {
+				if phi, ok = bin.Y.(*ssa.Phi); !ok {
+					return
+				}
+				x, y, op = bin.Y, bin.X, flip(bin.Op)
+			}
+			_ = x
+			down := false
+			for _, e := range phi.Edges {
+				if sub, ok := e.(*ssa.BinOp); ok && sub.Op == token.SUB && sub.X == ssa.Value(phi) && isConstInt(sub.Y, 1) {
+					down = true
+				}
+			}
+			if !down {
+				return
+			}
+			n++
+			good := (op == token.GEQ && isConstInt(y, 0)) || (op == token.GTR && isConstInt(y, -1))
+			r.ok(good, name+"|scan-bound#"+itoa(n), bin.Pos(), "the backward scan continues while i "+op.String()+" "+path(y)+": it must include index 0 (i >= 0), otherwise a match in the first element is not found")
+		})
+		if n == 0 {
+			r.undecided(name+"|scan", fn.Pos(), "no count-down loop found")
+		}
+	}
+}
+
+// mink-allocation (C19-r7m2): MinK's memory follows the items it has seen, never the caller's k ("fewer than k items: all of
+// them" makes a huge k a legal way to ask for everything): no allocation or Grow in MinK is sized from k.
+func ruleMinKAllocation(c *Ctx, r *R) {
+	fn := c.fn("xsort.MinK")
+	if fn == nil {
+		r.undecided("xsort.MinK|missing", token.NoPos, "anchor not found")
+		return
+	}
+	var k *ssa.Parameter
+	for _, p := range fn.Params {
+		if isIntType(p.Type()) {
+			k = p
+		}
+	}
+	if k == nil {
+		r.undecided("xsort.MinK|k", fn.Pos(), "parameter k not found")
+		return
+	}
+	var dependsOnK func(v ssa.Value, d int) bool
+	dependsOnK = func(v ssa.Value, d int) bool {
+		if d > 6 {
+			return false
+		}
+		switch x := resolveVal(v).(type) {
+		case *ssa.Parameter:
+			return x == k
+		case *ssa.BinOp:
+			return dependsOnK(x.X, d+1) || dependsOnK(x.Y, d+1)
+		case *ssa.Convert:
+			return dependsOnK(x.X, d+1)
+		case *ssa.Phi:
+			for _, e := range x.Edges {
+				if e != ssa.Value(x) && dependsOnK(e, d+1) {
+					return true
+				}
+			}
+		case *ssa.Call:
+			for _, a := range x.Call.Args {
+				if dependsOnK(a, d+1) {
+					return true
+				}
+			}
+		}
+		return false
+	}
+	n := 0
+	instrs(fn, func(_ *ssa.BasicBlock, _ int, in ssa.Instruction) {
+		switch x := in.(type) {
+		case *ssa.MakeSlice:
+			n++
+			r.ok(!dependsOnK(x.Len, 0) && !dependsOnK(x.Cap, 0), "xsort.MinK|alloc#"+itoa(n), x.Pos(), "MinK allocates a slice sized from k: a very large k (a legal way to ask for all items, sorted) makes it allocate without bound or panic")
+		case *ssa.Call:
+			cal := staticCallee(&x.Call)
+			if cal == nil || (fname(cal) != "Grow" && fname(cal) != "New") {
+				return
+			}
+			dep := false
+			for _, a := range x.Call.Args {
+				if isIntType(a.Type()) && dependsOnK(a, 0) {
+					dep = true
+				}
+			}
+			n++
+			r.ok(!dep, "xsort.MinK|alloc#"+itoa(n), x.Pos(), "MinK grows its heap by an amount computed from k: a very large k (a legal way to ask for all items, sorted) makes it allocate without bound or panic")
+		}
+	})
+	if n == 0 {
+		r.undecided("xsort.MinK|allocs", fn.Pos(), "no allocation found")
+	}
+}
+
+// merge-result-in-out (C19-r7m3): MergeSlices builds its result in `out` (grown from out[:0]): every return yields that slice,
+// never one of the inputs (a caller that appends to or edits the result would change its input).
+func ruleMergeResultInOut(c *Ctx, r *R) {
+	fn := c.fn("xsort.MergeSlices")
+	if fn == nil || len(fn.Params) < 3 {
+		r.undecided("xsort.MergeSlices|missing", token.NoPos, "anchor not found")
+		return
+	}
+	in := fn.Params[len(fn.Params)-1]
+	n := 0
+	instrs(fn, func(_ *ssa.BasicBlock, _ int, x ssa.Instruction) {
+		ret, ok := x.(*ssa.Return)
+		if !ok || len(ret.Results) != 1 {
+			return
+		}
+		for _, vr := range virtualReturnsOf(ret, 0) {
+			n++
+			bad := false
+			var walk func(v ssa.Value, d int)
+			walk = func(v ssa.Value, d int) {
+				if d > 8 || bad {
+					return
+				}
+				switch y := v.(type) {
+				case *ssa.UnOp:
+					if y.Op == token.MUL {
+						if ia, ok := y.X.(*ssa.IndexAddr); ok && resolveVal(ia.X) == ssa.Value(in) {
+							bad = true
+							return
+						}
+						if cell := cellOf(y.X); cell != nil {
+							for _, st := range storesTo(cell) {
+								walk(st.Val, d+1)
+							}
+						}
+					}
+				case *ssa.Phi:
+					for _, e := range y.Edges {
+						if e != ssa.Value(y) {
+							walk(e, d+1)
+						}
+					}
+				case *ssa.Slice:
+					walk(y.X, d+1)
+				case *ssa.Index:
+					if resolveVal(y.X) == ssa.Value(in) {
+						bad = true
+					}
+				case *ssa.Parameter:
+					if y == in {
+						bad = true
+					}
+				}
+			}
+			walk(vr.val, 0)
+			r.ok(!bad, "xsort.MergeSlices|result-not-an-input#"+itoa(n), retPos(ret), "MergeSlices returns one of its input slices instead of the merged copy built in out: the result aliases the caller's input, and the pre-allocated out is ignored")
+		}
+	})
+	if n == 0 {
+		r.undecided("xsort.MergeSlices|returns", fn.Pos(), "no return found")
+	}
+}
+
+// sleep-returns (C20-r7m3): SleepContext returns nil only when d <= 0 or its timer for d has fired, and ctx.Err() only inside the
+// <-ctx.Done() arm (anywhere else ctx.Err() may be nil: a shortcut for short sleeps returns nil before d has elapsed).
+func ruleSleepReturns(c *Ctx, r *R) {
+	fn := c.fn("xtime.SleepContext")
+	if fn == nil || len(fn.Params) < 2 {
+		r.undecided("xtime.SleepContext|missing", token.NoPos, "anchor not found")
+		return
+	}
+	dP := fn.Params[1]
+	n := 0
+	for _, di := range deepInstrs(fn, 2) {
+		ret, ok := di.in.(*ssa.Return)
+		if !ok || len(ret.Results) == 0 || ret.Parent() != fn {
+			continue
+		}
+		for _, vr := range virtualReturnsOf(ret, len(ret.Results)-1) {
+			n++
+			v := vr.val
+			good, why := false, ""
+			switch {
+			case isNilConst(v):
+				// d <= 0, or the timer arm
+				for _, g := range guardsOf(vr.blk) {
+					if cf, ok := g.asCmp(); ok {
+						if cf.x == ssa.Value(dP) && ((cf.op == token.LEQ && isConstInt(cf.y, 0)) || (cf.op == token.LSS && isConstInt(cf.y, 1))) {
+							good = true
+						}
+						// select index == the timer arm
+						if ex, ok := cf.x.(*ssa.Extract); ok && ex.Index == 0 && cf.op == token.EQL {
+							if sel, ok := ex.Tuple.(*ssa.Select); ok {
+								if k, isK := cf.y.(*ssa.Const); isK && k.Value != nil {
+									idx := int(k.Int64())
+									if idx >= 0 && idx < len(sel.States) {
+										if kind, _ := classifyChan(sel.States[idx].Chan); kind == "timer" {
+											good = true
+										}
+									}
+								}
+							}
+						}
+					}
+				}
+				// after a helper that waited under the context reported no error (chans.RecvContext(ctx, timer.C))
+				if !good {
+					for _, g := range guardsOf(vr.blk) {
+						if cf, ok := g.asCmp(); ok && cf.op == token.EQL && isNilConst(cf.y) {
+							if call, _ := resultCall(cf.x); call != nil {
+								if cal := staticCallee(&call.Call); cal != nil && ctxBlockingHelper(c, origin(cal)) {
+									good = true
+								}
+							}
+						}
+					}
+				}
+				why = "nil is returned on a path on which neither d <= 0 holds nor the timer for d has fired: the caller is told the sleep completed before d has elapsed"
+			default:
+				if ec, ok := v.(*ssa.Call); ok && ec.Call.IsInvoke() && ec.Call.Method.Name() == "Err" {
+					good = isCtxErrAfterDone(ec)
+					why = "ctx.Err() is returned outside the <-ctx.Done() arm: it is nil while the context is live, so the sleep reports completion early"
+				} else {
+					good = true // DeadlineTooSoonError, a helper's error: other rules
+				}
+			}
+			r.ok(good, "xtime.SleepContext|return#"+itoa(n), retPos(ret), why)
+		}
+	}
+	if n == 0 {
+		r.undecided("xtime.SleepContext|returns", fn.Pos(), "no return found")
+	}
+}
+
+var _ = late(func() {
+	properties["C17"].Rules = append(properties["C17"].Rules,
+		&Rule{ID: "C17.done-after-f", Floor: 1, Clause: "in the goroutine that Group.spawn starts, wg.Done() runs only after the spawned function has returned (after its call, or deferred)", Run: ruleDoneAfterF})
+	properties["C18"].Rules = append(properties["C18"].Rules,
+		&Rule{ID: "C18.set-always-publishes", Floor: 1, Clause: "every path through Watchable.Set installs a new inner value (atomic Swap / Store / successful CompareAndSwap)", Run: ruleSetAlwaysPublishes})
+	properties["C19"].Rules = append(properties["C19"].Rules,
+		&Rule{ID: "C19.backward-scan-reaches-zero", Floor: 2, Clause: "the count-down loops of xslices.LastIndex and LastIndexFunc continue while i >= 0", Run: ruleBackwardScanReachesZero},
+		&Rule{ID: "C19.mink-allocation", Floor: 1, Clause: "no allocation, Grow or heap construction in xsort.MinK is sized from the parameter k", Run: ruleMinKAllocation},
+		&Rule{ID: "C19.merge-result-in-out", Floor: 1, Clause: "xsort.MergeSlices never returns (a reslice of) one of its input slices", Run: ruleMergeResultInOut})
+	properties["C20"].Rules = append(properties["C20"].Rules,
+		&Rule{ID: "C20.sleep-returns", Floor: 3, Clause: "SleepContext returns nil only under d <= 0 or in the arm in which its timer fired, and ctx.Err() only inside the <-ctx.Done() arm", Run: ruleSleepReturns})
+})
+
+// calleePkgPath: the import path of the package a function (or the generic origin of an instantiated method) belongs to.
+func calleePkgPath(f *ssa.Function) string {
+	if o := origin(f); o != nil && o.Pkg != nil {
+		return o.Pkg.Pkg.Path()
+	}
+	if obj := f.Object(); obj != nil && obj.Pkg() != nil {
+		return obj.Pkg().Path()
+	}
+	if o := origin(f); o != nil {
+		if obj := o.Object(); obj != nil && obj.Pkg() != nil {
+			return obj.Pkg().Path()
+		}
+	}
+	return ""
+}
